@@ -41,7 +41,7 @@ def guard_drop(F, R):
                         okd = d.exists_path(core.Site(d, tgt, -1, ['arm']), d.ret_sites(), rd) is None
     R.ob('MUST-CALL', 'MUST-CALL::%s::remove_deadline-on-Deadline-arm' % fnkey(d), okd, 'a deadline guard removes both map entries when dropped', rd[0].where if rd else d.file, d)
     for r_ in rd:
-        a1, a2 = sym_nstr(sym(d, r_.args[1])), sym_nstr(sym(d, r_.args[2]))
+        a1, a2 = sym_nstr(sym(d, lib.arg(F, r_, 'reactor_idx', 1))), sym_nstr(sym(d, lib.arg(F, r_, 'deadline_queue_idx', 2)))
         R.ob('FLOW', 'FLOW::%s::removes-own-fd-and-index' % fnkey(d), 'native_handle' in a1 and 'index' in a2 and 'guard_type' in a1 and 'guard_type' in a2, 'remove_deadline(%s, %s)' % (a1[:90], a2[:90]), r_.where, d)
     # the reactor / deadline guards are fields of GuardType: their own Drop detaches them
     gt = F.adt('iceoryx2::waitset::GuardType')
